@@ -168,6 +168,10 @@ class C02(Check):
         for f in ('SUM', 'AVG', 'MAX'):
             js.append(dict(kind='expr', tree=tojson(('fun', f, ('bin', '+', cmps[0], cmps[1]))), n=3, nan=False, assign=None, minimal=True, probe=True))
             js.append(dict(kind='expr', tree=tojson(('bin', '*', ('num', '2'), ('bin', '+', cmps[0], cmps[2]))), n=2, nan=False, assign='r', minimal=True, probe=True))
+        # combination probes (round 5): an aggregate of a differentiated feature on short tracks (one leading NaN, odd and even counts of remaining values)
+        for n in (3, 4):
+            for f in ('MAD', 'AVG', 'SUM', 'STD', 'RMSE', 'VAR', 'MSE', 'MIN', 'MAX'):
+                js.append(dict(kind='expr', tree=tojson(('fun', f, ('fun', 'D', ('name', 'a')))), n=n, nan=False, assign=None, minimal=True, probe=True))
         # scale probes: long tracks (aggregates and series functions over 17 / 33 observations, NaN through D{})
         for n in (17, 33):
             for f in aflib.AGGREGATES:
